@@ -48,17 +48,28 @@ RULE = ("cases come from one PRNG seeded by VERIF_SEED plus fixed catalogues (al
         "or the stack/program is non-empty; distinct = distinct request lines")
 CLAUSES = {
     "script numbers are encoded minimally and decoding inverts encoding for every integer":
-        "proved (encodeNum_roundtrip, encodeNum_minimal, decodeNum_eq_scriptNum, encodeNum_eq_serialize, decodeNum_num4)",
+        "proved (encodeNum_roundtrip, encodeNum_minimal, encodeNum_eq_serialize, decodeNum_eq_scriptNum [total, any "
+        "length], decodeNum_num4, num4_none_iff, truth_is_castToBool)",
     "each single opcode maps every stack to the stack or failure consensus specifies":
-        "proved for every stack, operands <= 4 bytes (op_conforms and the per-opcode lemmas conf_*), except OP_2ROT: "
-        "partial (op_conforms_partial, F07b_witness: known finding F07b)",
+        "partial(known finding F07b): proved for every stack without depth bound and operands <= 4 bytes for all 73 "
+        "flow-free opcodes (op_conforms_partial, opPairs_codes; one lemma conf_* per op_* function in "
+        "Proofs/Interp.lean), the alt-stack opcodes (altstack_conforms) and IF/NOTIF as splicing functions "
+        "(op_if_splits); OP_2ROT only below 6 items (op_2rot_conforms_short) — F07b_witness, F07b_everywhere",
     "CHECKLOCKTIMEVERIFY / CHECKSEQUENCEVERIFY in every transaction context":
-        "proved (cltv_conforms for all operands, csv_conforms for operands < 2^32)",
+        "proved (cltv_conforms: all locktimes/sequences/operands; csv_conforms: all sequences/versions, operands "
+        "< 2^32; timelock_constants)",
     "evaluation accepts exactly when consensus accepts — straight-line programs":
-        "proved (evaluate_straightline, for every IF-free program without OP_2ROT, any length)",
+        "partial(known finding F07b): proved for every IF-free program of any length without OP_2ROT "
+        "(evaluate_straightline_partial, evaluate_straightline_accept)",
     "evaluation accepts exactly when consensus accepts — properly nested IF/NOTIF/ELSE/ENDIF":
-        "see Props/C07.lean header (ext clause)",
-    "final stack truthiness": "proved (finalTest_castToBool); F07a fixed",
+        "partial(known finding F07b): proved for every properly nested program (any depth, at most one ELSE per IF, "
+        "any length) without OP_2ROT (evaluate_nested_partial); repeated ELSE is outside (N07e_witness)",
+    "final stack truthiness": "proved (finalTest_castToBool); F07a fixed (F07a_witness shows the old behaviour)",
+    "opcodes outside the table / disabled opcodes / P2SH and witness-program patterns / tapscript table":
+        "correspondence-only (model = implementation on the generated cases; the specification covers only the "
+        "implemented subset)",
+    "the source still has the thresholds and operators the model was written against":
+        "proved against Buidl.Gen.Op (gen_depth_checks, gen_compare_ops, gen_num_literals, table via opPairs/table_pairs)",
 }
 TRUSTED = ["the hash functions are parameters of every theorem; the driver instantiates them with Buidl.Model.Hash.* "
            "(checked against hashlib by harness/hash_selftest.py and again by the hash-opcode cases of this run)",
@@ -519,6 +530,7 @@ def run(ctx):
     rng, rec = ctx.rng, ctx.rec
     drv = ctx.driver("drv_c07")
     W = ctx.workers
+    DW = min(4, W)      # the native driver is fast; few processes keep the fork overhead low
 
     # ---------------------------------------------------------------- known / fixed findings: witness replay
     wit_b = "op r 0 113 0 0 1 6 x01 x02 x03 x04 x05 x06 0"
@@ -540,21 +552,21 @@ def run(ctx):
             ints.add(-(2 ** k + d))
     for n in range(-300, 301):
         ints.add(n)
-    for _ in range(ctx.n(20000, 200000)):
+    for _ in range(ctx.n(10000, 200000)):
         ints.add(rng.randrange(-INT31, INT31 + 1))
     for _ in range(ctx.n(3000)):
         ints.add(rng.choice([1, -1]) * rng.getrandbits(rng.choice([9, 17, 25, 33, 41, 70, 130])))
     ints = sorted(ints)
     strs = [b""] + [bytes([a]) for a in range(256)] + [bytes([a, b]) for a in range(256) for b in range(256)]
-    for _ in range(ctx.n(30000, 1000000)):
+    for _ in range(ctx.n(10000, 1000000)):
         strs.append(rbytes(rng, 3))
     for _ in range(ctx.n(8000)):
         strs.append(rbytes(rng, rng.choice([4, 4, 4, 5, 6, 8, 9, 17])))
     strs += ODD_NUMS
     codec = [("encnum", f"encnum {n}", f"spec_ser {n}") for n in ints] + \
             [("decnum", f"decnum {xb(b)}", f"spec_num {xb(b)}") for b in strs]
-    mod = batch_parallel(drv, [c[1] for c in codec], workers=W)
-    spc = batch_parallel(drv, [c[2] for c in codec], workers=W)
+    both = batch_parallel(drv, [c[1] for c in codec] + [c[2] for c in codec], workers=DW)
+    mod, spc = both[:len(codec)], both[len(codec):]
     for (kind, line, sline), m, s in zip(codec, mod, spc):
         impl = impl_line(line)
         if impl != s:
@@ -594,7 +606,7 @@ def run(ctx):
             continue
         for s in stacks:
             add_op(code, False, s, lt=1234, seq=1234, ver=2)
-        for _ in range(ctx.n(120, 1200)):
+        for _ in range(ctx.n(80, 1200)):
             depth = rng.choice([4, 5, 6, 7, 7])
             s = [rng.choice(ALPHABET) if rng.random() < 0.5 else rand_elem(rng) for _ in range(depth)]
             alt = [rand_elem(rng) for _ in range(rng.choice([0, 0, 1, 3]))] if code in (107, 108) else []
@@ -629,14 +641,18 @@ def run(ctx):
         s = [rand_elem(rng) for _ in range(rng.choice([0, 1, 1, 2, 3]))]
         add_op(rng.choice([99, 100]), rng.random() < 0.1, s, items=items)
 
-    mod = batch_parallel(drv, [l[1] for l in op_lines], workers=W)
     spc_lines = [l[2] for l in op_lines if l[2] is not None]
-    spc_it = iter(batch_parallel(drv, spc_lines, workers=W))
+    both = batch_parallel(drv, [l[1] for l in op_lines] + spc_lines, workers=DW)
+    mod, spc_it = both[:len(op_lines)], iter(both[len(op_lines):])
     impls = impl_parallel([l[1] for l in op_lines], W)
     for (kind, ml, sl, code, depth), m, (impl, _) in zip(op_lines, mod, impls):
         s = next(spc_it) if sl is not None else None
         key = ml
-        if s is not None and _spec_scope(s):
+        n07f = m == "REJECT-VALUEERROR"
+        if n07f:
+            m = REJECT
+            rec.count("op:valueerror" + (":N07f" if (s is not None and s.startswith("OK")) else ""))
+        if s is not None and _spec_scope(s) and not n07f:
             want = s if s == REJECT else s + " 0"
             if impl != want:
                 fid = "F07b" if (code == 113 and depth >= 6) else None
@@ -669,10 +685,12 @@ def run(ctx):
                         tl.append((code, lt, seq, ver, [b"\x07", odd], None))
     tl_m = [f"op r 0 {c} {lt} {seq} {ver} {blist(s)} 0" for c, lt, seq, ver, s, _ in tl]
     tl_s = [f"spec_op {c} {lt} {seq} {ver} {blist(s)} 0" for c, lt, seq, ver, s, _ in tl]
-    mod = batch_parallel(drv, tl_m, workers=W)
-    spc = batch_parallel(drv, tl_s, workers=W)
+    both = batch_parallel(drv, tl_m + tl_s, workers=DW)
+    mod, spc = both[:len(tl_m)], both[len(tl_m):]
     impls = impl_parallel(tl_m, W)
     for (code, lt, seq, ver, s, opnd), ml, sl, m, sp, (impl, _) in zip(tl, tl_m, tl_s, mod, spc, impls):
+        if m == "REJECT-VALUEERROR":
+            m = REJECT
         in_scope = _spec_scope(sp) and (opnd is None or opnd <= 2 ** 32 - 1)
         if in_scope:
             want = sp if sp == REJECT else sp + " 0"
@@ -688,7 +706,7 @@ def run(ctx):
 
     # ---------------------------------------------------------------- 4. programs
     progs = []   # (kind, cmds, lt, seq, ver)
-    n_main = ctx.n(120000, 1500000)
+    n_main = ctx.n(60000, 1200000)
     streams = [("prog", dict(), n_main), ("prog_multi_else", dict(multi_else=True), n_main // 20),
                ("prog_junk", dict(junk=True), n_main // 20), ("prog_trigger", dict(big_push=True), n_main // 20)]
     for kind, kw, n in streams:
@@ -723,21 +741,23 @@ def run(ctx):
 
     m_lines = [f"eval r {lt} {seq} {ver} {fmt_cmds(c)}" for _, c, lt, seq, ver in progs]
     s_lines = [f"spec_eval {lt} {seq} {ver} {fmt_cmds(c)}" for _, c, lt, seq, ver in progs]
-    mod = batch_parallel(drv, m_lines, workers=W)
-    spc = batch_parallel(drv, s_lines, workers=W)
+    both = batch_parallel(drv, m_lines + s_lines, workers=DW)
+    mod, spc = both[:len(m_lines)], both[len(m_lines):]
     impls = impl_parallel(m_lines, W)
     for (kind, cmds, lt, seq, ver), ml, sl, m, sp, (impl, rot6) in zip(progs, m_lines, s_lines, mod, spc, impls):
-        mo, trig = m.split(" ")
+        mo, trig, ve = m.split(" ")
         if mo == "FUEL":
             raise MachineryError(f"model ran out of fuel on: {ml[:300]}")
-        scope = trig == "trig=0" and _spec_scope(sp) and in_subset(cmds) and else_counts_ok(cmds)
+        scope = (trig == "trig=0" and ve == "ve=0" and _spec_scope(sp) and in_subset(cmds)
+                 and else_counts_ok(cmds))
         if scope:
             if impl != sp:
                 rec.violation("prog_spec", {"line": sl, "oracle": "spec"}, impl, sp,
                               finding="F07b" if rot6 else None, note="evaluate differs from consensus")
                 continue
         else:
-            why = ("trigger" if trig != "trig=0" else sp.lower() if not _spec_scope(sp)
+            why = ("trigger" if trig != "trig=0" else "valueerror_N07f" if ve != "ve=0"
+                   else sp.lower() if not _spec_scope(sp)
                    else "opcode_outside_set" if not in_subset(cmds) else "repeated_else")
             rec.count(f"{kind}:outside_scope:{why}" + ("" if (impl == sp or not _spec_scope(sp)) else ":differs_from_spec"))
         if rec.compare(kind, {"line": ml, "oracle": "model"}, impl, mo, determined=False, key=ml,
@@ -760,6 +780,6 @@ def replay(ctx, v):
     ans = ctx.driver("drv_c07").one(line)
     if line.startswith("eval "):
         ans = ans.split(" ")[0]
-    if line.startswith("spec_op ") and ans != REJECT:
-        impl = impl  # `spec_op` answers on the implementation side omit the item list as well
+    if ans == "REJECT-VALUEERROR":
+        ans = REJECT
     return impl != ans
